@@ -570,6 +570,10 @@ func init() {
 		"vauxCell":         primAuxCell,
 		"vsymbolic":        func(m *M, fn *ssa.Function, a []Value) Value { return smt.True },
 		"vfail":            primFail,
+		"vclockFreeze": func(m *M, fn *ssa.Function, a []Value) Value {
+			m.st.ClockFrozen = a[0].(*smt.Term).IsTrue()
+			return nil
+		},
 		"vnative":          func(m *M, fn *ssa.Function, a []Value) Value { return smt.False },
 		"vbound": func(m *M, fn *ssa.Function, a []Value) Value {
 			if m.ex.Cfg.Tier == "thorough" {
